@@ -7,7 +7,7 @@
    share). *)
 From Coq Require Import String ZArith List Bool.
 From HD Require Import Base.Val C16_Model C16_Proofs C16_Proofs_Acc C16_Proofs_Mixed C16_Proofs_Codes C16_Proofs_Tree
-  C16_Proofs_E2E C16_Proofs_General C16_Proofs_Construct C16_Proofs_Enc.
+  C16_Proofs_E2E C16_Proofs_General C16_Proofs_Construct C16_Proofs_Enc C16_Proofs_Geom.
 Import ListNotations.
 Open Scope Z_scope.
 
@@ -540,3 +540,57 @@ Example C16_encoded_nonvacuous :
   run_accessors_enc [] [(33333, 33)] [] [enc_group] None None <> run_accessors [] [enc_group] None None.
 Proof. exact encoded_nonvacuous. Qed.
 Print Assumptions C16_encoded_nonvacuous.
+
+(* ==== REGION GEOMETRY: a returned group reports the coordinates its region(s) were constructed with ==================
+   An array is the list of its rows (coordinates are abstract integers, injective keys of doubles); `flatten_rows a`
+   is the GraphicData ScoordContentItem / Scoord3DContentItem.__init__ store for the LOGICAL n x d array a - row by
+   row, whatever the memory layout / strides / dtype of the ndarray that carried it (those are outside the model and
+   exercised by the correspondence run) - and `reshape_rows d` is what `value` makes of GraphicData.  rows_ok d a:
+   every row has d entries. *)
+Theorem C16_geometry_roundtrip : forall (trunc : Z -> Z) d (a : coords), d <> 0%nat -> rows_ok d a = true ->
+  reshape_rows d (flatten_rows a) = Ok a /\
+  reshape_rows d (map trunc (flatten_rows a)) = Ok (map (map trunc) a).
+Proof. intros trunc d a Hd Ha. split; [exact (reshape_flatten d a Hd Ha) | exact (reshape_map_flatten trunc d a Hd Ha)]. Qed.
+Print Assumptions C16_geometry_roundtrip.
+
+(* the observation of the correspondence run (accessors + geometry of every group the unfiltered queries return) is
+   the record-level specification: the groups of each kind in document order, each with what its record says and,
+   per coordinate-bearing reference item, the stored GraphicData = the rows one after the other and value = the array
+   it was constructed with; in an encoded report every coordinate rounded by tbl32 (Graphic Data has VR FL, 2D and 3D).
+   gitem_ok: positive dimension, every row of that length. *)
+Theorem C16_run_accessors_geom_exact : forall tbl32 pre (ggs : list (group * list gitem)) mname ename,
+  no_im pre = true -> Forall good (map fst ggs) -> NoDup (map (fun p => g_tid (fst p)) ggs) ->
+  Forall (fun p => forallb gitem_ok (snd p) = true) ggs ->
+  run_accessors_geom tbl32 pre ggs mname ename =
+  VL (map (fun k => VL (map (fun p => VL [spec_acc k (fst p) mname ename;
+                                          VL (map (spec_gitem (tbl_fun tbl32)) (snd p))])
+                            (filter (fun p => kind_eqb (g_kind (fst p)) k) ggs)))
+          [Planar; Volumetric; ImageK]).
+Proof. exact run_accessors_geom_exact. Qed.
+Print Assumptions C16_run_accessors_geom_exact.
+
+(* in memory (empty table) the group reports exactly the arrays it was constructed with *)
+Theorem C16_geometry_in_memory : forall x,
+  spec_gitem (tbl_fun []) x = let 'GI d aux a := x in VL [VZ (Z.of_nat d); VZ aux; vz_list (concat a); vz_list2 a].
+Proof. exact spec_gitem_mem. Qed.
+Print Assumptions C16_geometry_in_memory.
+
+(* the row-major order is necessary: storing a two-point array column by column (a memory-order walk of a
+   Fortran-ordered ndarray) makes `value` report another region; a single point is the same in both orders *)
+Theorem C16_column_major_refuted :
+  exists a : coords, rows_ok 2 a = true /\ reshape_rows 2 (flatten_cols 2 a) <> Ok a /\
+                     reshape_rows 2 (flatten_rows a) = Ok a.
+Proof. exact column_major_refuted. Qed.
+Print Assumptions C16_column_major_refuted.
+
+Theorem C16_column_major_single_row : forall d r, length r = d -> flatten_cols d [r] = flatten_rows [r].
+Proof. exact column_major_single_row. Qed.
+Print Assumptions C16_column_major_single_row.
+
+Example C16_geom_nonvacuous :
+  Forall good (map fst ex_ggs) /\ NoDup (map (fun p => g_tid (fst p)) ex_ggs) /\
+  Forall (fun p => forallb gitem_ok (snd p) = true) ex_ggs /\
+  Forall (fun p => map gi_d (snd p) = geom_dims (g_ref (fst p))) ex_ggs /\
+  run_accessors_geom [(13, 12)] [] ex_ggs None None <> run_accessors_geom [] [] ex_ggs None None.
+Proof. exact geom_nonvacuous. Qed.
+Print Assumptions C16_geom_nonvacuous.
